@@ -7,11 +7,14 @@ int count = 0;         // executions seen (capped at nth+1 so that the state sta
 string hostile = "";   // operation performed by the verb "act"
 int period = 2;        // re-arm delay of the call_out chains
 int hret = 1;          // what the verb returns after the hostile operation
+int st = 0;            // self-test of the check: 2 = heart-beat object 1 silently stops beating
 
 void create() { seteuid(getuid()); }
 void set_plan(string k, int p, int n, int e) { kind = k; pos = p; nth = n; every = e; count = 0; }
 void set_hostile(string h, int r) { hostile = h; hret = r; }
 void set_period(int p) { period = p; }
+void set_st(int s) { st = s; }
+int query_st() { return st; }
 string query_hostile() { return hostile; }
 int query_hret() { return hret; }
 int query_period() { return period; }
